@@ -1679,7 +1679,7 @@ def corpus():
 
 
 def generate(rng: random.Random, tier: str):
-    n_specs, per_spec = (400, 50) if tier == "quick" else (4000, 60)
+    n_specs, per_spec = (400, 50) if tier == "quick" else (8000, 60)
     out = list(finding_cases(rng, 10 if tier == "quick" else 100))
     for _ in range(n_specs):
         spec = gen_spec(rng)
